@@ -164,7 +164,14 @@ def cell_to_lonlat(cell_id: int) -> LonLat:
     cell = deserialize(cell_id)
     pentagon = _get_pentagon(cell)
     point = _dodecahedron.inverse(pentagon.get_center(), cell["origin"].id)
-    return to_lonlat(point)
+    longitude, latitude = to_lonlat(point)
+
+    # to_lonlat subtracts the longitude offset from an angle in [-180, 180]: wrap back into that range
+    if longitude < -180:
+        longitude += 360
+    elif longitude > 180:
+        longitude -= 360
+    return (longitude, latitude)
 
 def cell_to_boundary(
     cell_id: int,
